@@ -130,3 +130,11 @@ Lemma has_prefix_app p r : has_prefix p (p ++ r) = true.
 Proof. unfold has_prefix. rewrite firstn_app, Nat.sub_diag, firstn_all. cbn. rewrite app_nil_r. apply bytes_eqb_refl. Qed.
 
 Definition xor_byte (a b : byte) : byte := b8 (N.lxor (Byte.to_N a) (Byte.to_N b)).
+
+(* deterministic filler for long inputs (the harness has the same generator): x' = (1103515245 x + 12345) mod 2^31, byte = bits 16..23 *)
+Fixpoint gen_bytes_aux (n : nat) (x : N) : bytes :=
+  match n with
+  | O => []
+  | S n' => let x' := ((1103515245 * x + 12345) mod 2147483648)%N in b8 (x' / 65536) :: gen_bytes_aux n' x'
+  end.
+Definition gen_bytes (seed : N) (n : nat) : bytes := gen_bytes_aux n seed.
